@@ -264,7 +264,9 @@ def model_recipe(cls, depth=0, dates=True, objects=True, required_only=False):
         return st.one_of(txt, txt, mu.map(lambda t: {"value": t[0], "unitText": t[1]}), mu.map(lambda t: {"$sivalue": list(t)}),
                          mu.map(lambda t: {"$qvalue": list(t)}))
     if name in ("Pixels",):
-        return st.one_of(st.integers(0, 5000), st.floats(0, 100).map(lambda x: round(x, 2)))
+        num = st.one_of(st.integers(0, 5000), st.floats(0, 100).map(lambda x: round(x, 2)))
+        # (now and then something that is no proper number: refused, or handled like any valid instance)
+        return st.one_of(*([num] * 12), st.sampled_from([True, float("inf")])) if objects else num
     if name in ("NumValue",):
         plain = st.one_of(st.integers(0, 5000), st.sampled_from(["5 kg", "3"]))
         if not objects:
